@@ -85,6 +85,127 @@ def run_shoot(st, exe_dir, allowmax=False):
     return fails
 
 
+def run_shoot_minus(st, exe_dir, allowmax=False):
+    """One enumerated [0-] shooting attempt on the real shoot() (start condition "R")."""
+    from infretis.core import tis
+    R0, wall = _CONST["R0"], _CONST["Wall"]
+    res = st["res"]
+    old, idx = list(st["old"]), st["idx"]
+    nold, nnew = res["nold"], res["nnew"]
+    t = nold / nnew if nnew > 0 else 2.0
+    if st["xi"] == "below":
+        xi = min(t * (1 - 1e-6), 0.999999)
+    elif st["xi"] == "above":
+        if t * (1 + 1e-6) >= 1.0:
+            return None
+        xi = t * (1 + 1e-6)
+    else:
+        xi = 0.01 * min(1.0, t)
+    for f in os.listdir(exe_dir):
+        os.remove(os.path.join(exe_dir, f))
+    path = moves.make_path(old, exe_dir)
+    rg = moves.ScriptedRgen(integers=[idx - 1], randoms=[xi])
+    eng = moves.engine(exe_dir, left_wall=wall)
+    eng.script_calls = [list(st["back"]), list(st["forw"])]
+    es = moves.ens_set(float("-inf"), R0 - 0.5, R0 - 0.5, st["maxlength"], rg, allowmax=allowmax, start_cond="R", name="000")
+    before = moves.snapshot(path)
+    fails = []
+    try:
+        accept, trial, status = tis.shoot(es, path, eng, start_cond=("R",))
+    except Exception as exc:  # noqa: BLE001
+        from harness.plugins.lattice_engine import LatticeScriptExhausted
+        if isinstance(exc, LatticeScriptExhausted):
+            return [("harness:script", "the engine asked for more steps than the case scripts (harness)")]
+        return [(f"raise:{type(exc).__name__}", f"shoot in [0-] raised {type(exc).__name__}: {exc}")]
+    tr = list(res["trial"])
+    exp = res["accept"] if not allowmax else (res["accept"] or (st["xi"] == "above" and bool(res["complete"]) and len(tr) <= st["maxlength"]))
+    if bool(accept) != (status == "ACC") or (trial.status == "ACC") != bool(accept):
+        fails.append(("acc_iff_status", f"[0-]: accept = {accept} but status = {status!r} / path status {trial.status!r}"))
+    if bool(accept) != bool(exp):
+        fails.append((f"shoot0:rule:{st['xi']}:{'accepts' if accept else 'rejects'}",
+                      f"[0-]: old path {old} (n_old = {nold}), shooting frame {idx - 1}, trial would be {tr} (n_new = {nnew}), drawn number {xi:.6f}, "
+                      f"n_old/n_new = {t:.6f}, maxlength {st['maxlength']}: the code {'accepted' if accept else 'rejected with ' + status}, "
+                      f"the property {'accepts' if exp else 'rejects'}"))
+    if accept:
+        got = moves.positions(trial)
+        if got != tr:
+            fails.append(("shoot0:trial", f"[0-]: accepted path {got}, specification {tr}"))
+        if not (got[0] >= R0 and got[-1] >= R0 and all(x < R0 for x in got[1:-1])):
+            fails.append(("shoot0:member", f"[0-]: the accepted path {got} is not a member of [0-]"))
+    if moves.snapshot(path) != before:
+        fails.append(("old_untouched", f"[0-]: the old path or its files changed during a shooting move (status {status})"))
+    return fails
+
+
+def _job_minus(chunk):
+    exe = common.tmpdir("c09m-")
+    out, n, skipped = [], 0, 0
+    try:
+        for sid in chunk:
+            st = tlc.parse_state(_RAW[sid])
+            if not st["done"]:
+                continue
+            if not st["res"]["complete"]:
+                skipped += 1
+                continue
+            for allowmax in (False, True):
+                fails = run_shoot_minus(st, exe, allowmax=allowmax)
+                if fails is None:
+                    continue
+                n += 1
+                case = {k: st[k] for k in ("old", "idx", "xi", "back", "forw", "maxlength")}
+                case.update({"allowmaxlength": allowmax, "expected": st["res"], "minus": True})
+                for sig, msg in fails:
+                    out.append((sig, msg, case))
+    finally:
+        shutil.rmtree(exe, ignore_errors=True)
+    return n, out, skipped
+
+
+def run_minus(chk, work, q):
+    """MovesMinus.tla: shooting in [0-]."""
+    global _RAW, _CONST
+    consts = {"R0": 1, "Wall": -2, "MaxOld": 5 if q else 6, "NSteps": 3 if q else 4}
+    _CONST = dict(consts)
+    for mod in ("MovesMinus.tla", "LatticeOps.tla"):
+        if not os.path.exists(os.path.join(work, mod)):
+            os.symlink(os.path.join(tlc.SPEC_DIR, mod), os.path.join(work, mod))
+    with open(os.path.join(work, "MC_MovesMinus.tla"), "w") as fh:
+        fh.write(f"---- MODULE MC_MovesMinus ----\nEXTENDS MovesMinus\nMLs == {{5, 7}}\nWallDef == {consts['Wall']}\n====\n")
+    cfg = os.path.join(work, "MovesMinus.cfg")
+    with open(cfg, "w") as fh:
+        fh.write("SPECIFICATION Spec\nCONSTANTS\n" + "".join(f"  {k} = {v}\n" for k, v in consts.items() if k != "Wall")
+                 + "  Wall <- WallDef\n  MaxLengths <- MLs\nINVARIANT AcceptedIsMember\nCHECK_DEADLOCK FALSE\n")
+    dot = os.path.join(work, "minus.dot")
+    try:
+        res = tlc.run_tlc(os.path.join(work, "MC_MovesMinus.tla"), cfg, dump=dot, timeout=3000, allow_violation=True, cwd=work)
+    except tlc.TLCError as exc:
+        chk.machinery(str(exc)[:1500])
+        return
+    chk.add_tlc(res, consts)
+    if not res["ok"]:
+        chk.machinery(f"TLC refuted {res['violated']} on MovesMinus.tla")
+        return
+    _RAW, _i, _e = tlc.read_dot(dot, parse=False)
+    os.remove(dot)
+    results = common.pmap(_job_minus, common.chunks(sorted(_RAW), 64))
+    ncases = nskip = 0
+    for n, fails, skipped in results:
+        ncases += n
+        nskip += skipped
+        for sig, msg, case in fails:
+            if sig.startswith("harness:"):
+                chk.machinery(msg)
+                continue
+            chk.violation(sig, msg, {"property": PID, "binding": "B", "spec": "MovesMinus", "constants": dict(consts), "case": case, "clause": sig})
+    chk.evaluated(ncases)
+    chk.traces(ncases)
+    for i in range(ncases):
+        chk.nontrivial(("minus", i))
+    print(f"  MovesMinus: {res['distinct']} states, {ncases} shooting attempts in [0-] replayed on the real shoot() ({nskip} cases whose walks do not "
+          "reach the interface skipped)", flush=True)
+
+
 def _would_accept_without_xi(st):
     L, M = _CONST["L"], _CONST["M"]
     res = st["res"]
@@ -159,7 +280,7 @@ def main(tier, replay=None):
         exe = common.tmpdir("c09r-")
         st = dict(rp["case"])
         st["res"] = st.pop("expected")
-        fails = run_shoot(st, exe, allowmax=st.get("allowmaxlength", False))
+        fails = (run_shoot_minus if st.get("minus") else run_shoot)(st, exe, allowmax=st.get("allowmaxlength", False))
         shutil.rmtree(exe, ignore_errors=True)
         if fails:
             print(f"VIOLATION property={PID} replay={replay}\n  {fails[:3]}")
@@ -175,6 +296,9 @@ def main(tier, replay=None):
         wwork2 = os.path.join(work, "wf2")
         os.makedirs(wwork2)
         wfmove.run_two_jumps(chk, PID, tier, wwork2, chk.seed + 77)
+        mwork = os.path.join(work, "minus")
+        os.makedirs(mwork)
+        run_minus(chk, mwork, q)
         for mod in ("Moves.tla", "LatticeOps.tla"):
             os.symlink(os.path.join(tlc.SPEC_DIR, mod), os.path.join(work, mod))
         for (L, M, R, maxold, nsteps, mls) in ([(0, 2, 3, 5, 3, "{5, 7}")] if q else [(0, 2, 3, 5, 4, "{5, 7}"), (0, 1, 3, 5, 4, "{6}"), (0, 3, 4, 7, 4, "{8, 9}")]):
